@@ -118,6 +118,8 @@ def scenario(task):
     random.seed(7)
 
     def on_alarm(signum, frame):
+        if not armed[0]:
+            return
         import faulthandler
         import tempfile
         with tempfile.TemporaryFile(mode="w+") as f:
@@ -126,7 +128,13 @@ def scenario(task):
             stacks[:] = [f.read()[-3000:]]
         raise Hang()
     stacks = []
+    armed = [False]
     signal.signal(signal.SIGALRM, on_alarm)
+
+    def arm(seconds):
+        # repeating: a first Hang may be swallowed by a cleanup path that blocks again
+        armed[0] = seconds > 0
+        signal.setitimer(signal.ITIMER_REAL, seconds, 5.0 if seconds > 0 else 0.0)
     msg_text = f"injected fault at {where}"
     faults = phase_fault = None
     if fault_kind == "task":
@@ -137,10 +145,11 @@ def scenario(task):
     kids0 = realpool.live_children()
     held = None
     result = None
-    signal.alarm(60)
+    arm(60)
     try:
         result = call(pool_mode, faults=faults, phase_fault=phase_fault, kind=call_kind)
     except Hang:
+        arm(0)
         out["problems"].append("the call did not return or raise within 60 s (hang); stacks: " + "".join(stacks))
         return out
     except HarnessError:
@@ -148,7 +157,7 @@ def scenario(task):
     except BaseException as e:
         held = e                      # keep it referenced, like a caller inside its except block
     finally:
-        signal.alarm(0)
+        arm(0)
     if fault_kind == "task" and pool_mode != "virtual":
         pass
     # was the fault point reached at all?
@@ -176,7 +185,7 @@ def scenario(task):
             out["problems"].append(f"{len(kids)} worker process(es) still alive while the caller holds the exception")
     out["raised"] = None if held is None else type(held).__name__
     # a clean call in the same process behaves as if the failed call had not happened
-    signal.alarm(60)
+    arm(60)
     try:
         clean = call("default", kind="ok")
         out["clean_digest"] = result_digest(clean)
@@ -187,7 +196,7 @@ def scenario(task):
     except BaseException as e:
         out["problems"].append(f"the clean call after the failure raises {type(e).__name__}: {e}"[:300])
     finally:
-        signal.alarm(0)
+        arm(0)
     kids = [p for p in realpool.live_children() if p not in kids0]
     if kids and not out["problems"]:
         out["problems"].append(f"{len(kids)} worker process(es) alive after the clean follow-up call")
@@ -274,7 +283,9 @@ def run(ctx):
     if rounds < 3:
         raise HarnessError(f"probe run has only {rounds} rounds; fault points at round 2 would be unreachable")
     tasks = plan(ctx)
-    outs = realpool.fresh_map(scenario, tasks, jobs=12, timeout=200)
+    outs = realpool.fresh_map(scenario, tasks, jobs=12, timeout=200,
+                              on_timeout=lambda t: {"task": t, "reached": True,
+                                                    "problems": ["the scenario did not finish within 200 s (hang)"]})
     acc = Acc(max_fails=5)
     for t, o in zip(tasks, outs):
         acc.n += 1
